@@ -112,7 +112,8 @@ fn parse_color(word: &str) -> Result<Option<anstyle::Color>, ()> {
         _ => {
             if let Some(hex) = word.strip_prefix('#') {
                 let l = hex.len();
-                if l != 3 && l != 6 {
+                // `from_str_radix` accepts a sign and the slicing below assumes one byte per digit
+                if (l != 3 && l != 6) || !hex.bytes().all(|b| b.is_ascii_hexdigit()) {
                     return Err(());
                 }
                 let l = l / 3;
